@@ -131,7 +131,7 @@ pub fn username_strings() -> BoxedStrategy<String> {
     let mixed: BoxedStrategy<String> = vec(prop_oneof![3 => gens::pick(&p.id_valid), 2 => gens::pick(&p.cased), 2 => gens::pick(&p.norm), 2 => gens::pick(&p.width), 1 => gens::pick(&p.ctx)], 0..=10)
         .prop_map(gens::s_of)
         .boxed();
-    gens::respelled(
+    gens::padded(gens::respelled(
         prop_oneof![
             25 => gens::valid_biased(&p.id_friendly, risky_id()),
             20 => gens::valid_biased(&p.id_valid, risky_id()),
@@ -140,7 +140,7 @@ pub fn username_strings() -> BoxedStrategy<String> {
             15 => gens::gstring(),
         ]
         .boxed(),
-    )
+    ))
 }
 pub fn risky_ff() -> BoxedStrategy<char> {
     let p = pools();
@@ -161,14 +161,14 @@ pub fn freeform_strings() -> BoxedStrategy<String> {
     let spacey: BoxedStrategy<String> = vec(prop_oneof![3 => gens::pick(&p.zs), 2 => Just(' '), 2 => gens::pick(&p.nfkc_space), 4 => gens::pick(&p.ff_valid), 2 => gens::pick(&p.compat_ff), 2 => gens::pick(&p.norm)], 0..=12)
         .prop_map(gens::s_of)
         .boxed();
-    gens::respelled(
+    gens::padded(gens::respelled(
         prop_oneof![
             45 => gens::valid_biased(&p.ff_valid, risky_ff()),
             40 => spacey,
             15 => gens::gstring(),
         ]
         .boxed(),
-    )
+    ))
 }
 pub fn strings_for(p: Prof) -> BoxedStrategy<String> {
     if p.is_username() { username_strings() } else { freeform_strings() }
@@ -217,6 +217,26 @@ pub fn enum_strings(run: &Run, section: &str, alpha: &[char], maxlen: u32, f: &(
     });
 }
 
+/// the same enumeration (shorter strings) behind and in front of long pads of valid characters
+pub fn enum_strings_padded(run: &Run, section: &str, alpha: &[char], maxlen: u32, f: &(dyn Fn(&str, &mut Local) -> bool + Sync)) {
+    let pads: Vec<(String, String)> = vec![
+        (gens::pad(0, 4), String::new()),
+        (gens::pad(1, 5), String::new()),
+        (gens::pad(3, 8), "z".to_string()),
+        (gens::pad(2, 11), String::new()),
+        (String::new(), gens::pad(1, 9)),
+        (gens::pad(5, 13), gens::pad(0, 3)),
+    ];
+    enum_strings(run, section, alpha, maxlen, &|s, l| {
+        for (a, b) in &pads {
+            if !f(&format!("{a}{s}{b}"), l) {
+                return false;
+            }
+        }
+        true
+    });
+}
+
 /// alphabet for username pipelines: every step has something to do and the steps interact
 pub const ALPHA_USER: [char; 32] = [
     'a', 'A', '1', '\u{ff21}', '\u{ff41}', '\u{ff11}', '\u{ff76}', '\u{ff9e}', '\u{30ab}', '\u{3099}', '\u{e9}', '\u{c9}', 'e', '\u{301}', '\u{30a}', '\u{212b}', '\u{130}', '\u{1c5}',
@@ -227,3 +247,61 @@ pub const ALPHA_FREE: [char; 28] = [
     'a', 'A', ' ', '\u{a0}', '\u{3000}', '\u{2003}', '\u{a8}', '\u{2017}', '\u{1fbf}', '\u{fdfa}', '\u{e9}', 'e', '\u{301}', '\u{308}', '\u{212b}', '\u{fb01}', '\u{2163}', '\u{ff21}',
     '\u{3131}', '\u{ffa1}', '\u{fe71}', '\u{1d11e}', '\u{130}', '\u{3a3}', '\u{200d}', '\u{94d}', '\u{0}', '\u{ff65}',
 ];
+
+/// Alignment and run stress: every payload behind 0..=72 ASCII characters (all alignments through 16/32/64-byte blocks),
+/// optionally bridged by one 2/3/4-byte character, with three tails; and runs of 1..=70 combining marks of several kinds
+/// (long runs of non-starters / transparent characters), alone and behind a pad.
+pub fn stress_strings(payloads: &[&str]) -> Vec<String> {
+    let mut v = Vec::new();
+    for p in payloads {
+        for k in 0..=72usize {
+            for bridge in ["", "\u{e9}", "\u{6f22}", "\u{10428}"] {
+                for tail in ["", "z", "zzzzzzzzzzzzzzzzzzzz", "\u{e9}", "zz\u{a8}x", " \u{6f22}zzzzzzzzzzzzzzzz\u{e9}"] {
+                    v.push(format!("{}{}{}{}", "a".repeat(k), bridge, p, tail));
+                }
+            }
+        }
+        for k in [127usize, 128, 129, 255, 256, 257, 1023, 1024, 4095, 4096, 4097] {
+            v.push(format!("{}{}", "a".repeat(k), p));
+            v.push(format!("{}\u{e9}{}z", "a".repeat(k), p));
+        }
+    }
+    for mark in ['\u{301}', '\u{300}', '\u{323}', '\u{5bf}', '\u{64e}', '\u{3099}', '\u{94d}', '\u{1e2ae}'] {
+        for n in 1..=70usize {
+            let run: String = std::iter::repeat(mark).take(n).collect();
+            v.push(format!("e{run}"));
+            v.push(format!("{}e{run}x", "a".repeat(17)));
+            v.push(format!("\u{5d0}{run}\u{5d1}"));
+            // alternating with a second mark (reordering under normalisation)
+            let alt: String = (0..n).map(|i| if i % 2 == 0 { mark } else { '\u{323}' }).collect();
+            v.push(format!("a{alt}"));
+        }
+    }
+    v
+}
+
+pub const PAYLOADS_SPACE: [&str; 10] = [" ", "\u{a0}", "\u{3000}", "\u{2003} ", "  ", " x ", "\u{a8}", "\u{fdfa}", "\u{1680}\u{205f}", "x\u{3000}\u{3000}y "];
+pub const PAYLOADS_USER: [&str; 20] = [
+    "Z", "aZb", "A", "\u{1c5}", "\u{130}", "\u{3a3}", "\u{1f88}", "\u{10400}", "\u{ff21}", "\u{ff76}\u{ff9e}", "\u{ffe6}", "e\u{301}", "\u{212b}", "\u{5d0}", "\u{661}", "l\u{b7}l",
+    "\u{94d}\u{200d}", "\u{9c7}\u{9be}", "\u{13a0}", "\u{5d0}\u{5b8}",
+];
+pub const PAYLOADS_FREE: [&str; 8] = ["e\u{301}", "\u{212b}", "\u{fb01}", "\u{3131}", "\u{2163}", "\u{9c7}\u{9be}", "A", "\u{ff21}"];
+
+/// run `f` over the stress strings, partitioned over the threads
+pub fn stress(run: &Run, section: &str, payloads: &[&str], f: &(dyn Fn(&str, &mut Local) -> bool + Sync)) {
+    let all = stress_strings(payloads);
+    run.par(section, true, |tid, n, l| {
+        for (i, s) in all.iter().enumerate() {
+            if i % n != tid {
+                continue;
+            }
+            if i % 512 < n && run.stopped() {
+                return;
+            }
+            l.cases += 1;
+            if !f(s, l) {
+                return;
+            }
+        }
+    });
+}
